@@ -7,7 +7,7 @@ from . import render as RR
 import os as _os
 _HOSTILE_ENV = [x for x in _os.environ.get("VERIF_DEV_HOSTILE", "").split(",") if x] or None      # development probe only
 
-STRUM_DERIVES = {"EnumString", "Display", "AsRefStr", "IntoStaticStr", "VariantNames", "EnumMessage", "ToString",
+STRUM_DERIVES = {"EnumVariantNames", "EnumString", "Display", "AsRefStr", "IntoStaticStr", "VariantNames", "EnumMessage", "ToString",
                  "AsStaticStr", "EnumProperty", "EnumIter", "EnumCount", "VariantArray", "EnumIs", "EnumTryAs",
                  "FromRepr", "EnumTable", "EnumDiscriminants"}
 
